@@ -43,14 +43,11 @@ def dhas (k : Str) (d : List (Str × α)) : Bool := (dkeys d).contains k
 def sClass : Str := str "class"
 def sStyle : Str := str "style"
 
-/-- `constants.TAG_ITEM_BINARY_ATTRIBUTES` (tied to the source by the check's table obligation). -/
-def binaryAttrs : List Str :=
-  ["hidden", "checked", "selected", "autoplay", "controls", "loop", "muted", "compact", "novalidate",
-   "noresize", "autofocus", "disabled", "formnovalidate", "multiple", "readOnly", "required", "declare",
-   "reversed", "async", "defer", "nowrap", "default"].map str
+/-- `constants.TAG_ITEM_BINARY_ATTRIBUTES` (regenerated from the source on every run). -/
+def binaryAttrs : List Str := Gen.binaryAttributes.map str
 
 /-- `constants.TAG_ITEM_BINARY_ATTRIBUTES_STRING_ATTR`. -/
-def boolStrAttrs : List Str := ["spellcheck"].map str
+def boolStrAttrs : List Str := Gen.binaryStringAttributes.map str
 
 def voidTags : List Str := Gen.voidTags.map str
 def invisibleRoot : Str := str Gen.invisibleRootTag
